@@ -478,4 +478,752 @@ panic: `dicom_json::from_value` … -/
 theorem from_value_no_panic (j : J) (h : j.utf8 = true) : fromValue j ≠ .panic :=
   dsOfJ_ne_panic j h
 
+/-! ## Part B — the round trip
+
+`json_rt`: for every well-typed data set without encapsulated pixel data (any nesting depth),
+`from_value (to_value ds) = Ok (normDs ds)`, where `normDs` applies exactly the documented
+normalisations (`normPrim` in Model/Json.lean).  Float hypothesis: narrowing a widened finite
+`f32` gives it back (`F32WidenNarrow`, an IEEE-754 fact about `as` casts). -/
+
+theorem hexDigitVal_hexUp {d : Nat} (h : d < 16) : hexDigitVal (hexUp d) = some d := by
+  have : ∀ m : Fin 16, hexDigitVal (hexUp m.val) = some m.val := by decide
+  exact this ⟨d, h⟩
+
+theorem isHexDigit_hexUp {d : Nat} (h : d < 16) : isHexDigit (hexUp d) = true := by
+  have : ∀ m : Fin 16, isHexDigit (hexUp m.val) = true := by decide
+  exact this ⟨d, h⟩
+
+theorem isCont_hexUp {d : Nat} (h : d < 16) : isCont (hexUp d) = false := by
+  have : ∀ m : Fin 16, isCont (hexUp m.val) = false := by decide
+  exact this ⟨d, h⟩
+
+theorem parseHex_hex4 {x : Nat} (h : x < 65536) : parseHex (hex4 x) = some x := by
+  have m16 : ∀ n : Nat, n % 16 < 16 := fun n => Nat.mod_lt _ (by decide)
+  simp only [parseHex, hex4, List.foldl_cons, List.foldl_nil, hexDigitVal_hexUp (m16 _)]
+  have e1 : x / 256 = x / 16 / 16 := by rw [Nat.div_div_eq_div_mul]
+  have e2 : x / 4096 = x / 16 / 16 / 16 := by rw [Nat.div_div_eq_div_mul, Nat.div_div_eq_div_mul]
+  rw [e1, e2]
+  simp only [Option.some.injEq]
+  omega
+
+/-- `parse_tag_part` on four upper-hex digits followed by nothing or an ASCII byte -/
+theorem parseTagPart_hex4 {x : Nat} (h : x < 65536) (r : Bytes)
+    (hr : r = [] ∨ ∃ b t, r = b :: t ∧ isCont b = false) :
+    parseTagPart (hex4 x ++ r) = .ok (x, r) := by
+  have m16 : ∀ n : Nat, n % 16 < 16 := fun n => Nat.mod_lt _ (by decide)
+  have hb : isCharBoundary (hex4 x ++ r) 4 = true := by
+    rcases hr with rfl | ⟨b, t, rfl, hc⟩
+    · simp [isCharBoundary, hex4]
+    · simp [isCharBoundary, hex4, hc]
+  have ht : (hex4 x ++ r).take 4 = hex4 x := by simp [hex4]
+  have hd : (hex4 x ++ r).drop 4 = r := by simp [hex4]
+  have hall : (hex4 x).all isHexDigit = true := by
+    simp [hex4, isHexDigit_hexUp (m16 _)]
+  have hall' : ∀ y ∈ hex4 x, isHexDigit y = true := by simpa [List.all_eq_true] using hall
+  simp [parseTagPart, hb, ensure, splitAtB, ht, hd, hall, hall', parseHex_hex4 h, expect]
+  rw [if_pos hall']; rfl
+
+theorem parseTag_tagKey {t : Nat} (h : t < 4294967296) : parseTag (tagKey t) = .ok t := by
+  have m16 : ∀ n : Nat, n % 16 < 16 := fun n => Nat.mod_lt _ (by decide)
+  have hl : (tagKey t).length = 8 := by simp [tagKey, hex4]
+  have h1 : parseTagPart (hex4 (t / 65536 % 65536) ++ hex4 (t % 65536))
+      = .ok (t / 65536 % 65536, hex4 (t % 65536)) :=
+    parseTagPart_hex4 (Nat.mod_lt _ (by decide)) _
+      (Or.inr ⟨_, _, rfl, isCont_hexUp (m16 _)⟩)
+  have h2 : parseTagPart (hex4 (t % 65536)) = .ok (t % 65536, []) := by
+    have := parseTagPart_hex4 (x := t % 65536) (Nat.mod_lt _ (by decide)) [] (Or.inl rfl)
+    simpa using this
+  unfold parseTag
+  simp only [hl]
+  simp only [tagKey, h1, h2, Outcome.bind_ok, Outcome.map_ok]
+  simp
+  omega
+
+/-! ### one attribute object through the visitor -/
+
+theorem kVr_ne : (kVr == kValue) = false ∧ (kVr == kInline) = false ∧ (kVr == kBulk) = false ∧
+    (kValue == kVr) = false ∧ (kValue == kInline) = false ∧ (kValue == kBulk) = false ∧
+    (kInline == kVr) = false ∧ (kInline == kValue) = false ∧ (kInline == kBulk) = false := by decide
+
+theorem elemOfJ_empty (tag : Nat) (vr : VR) :
+    elemOfJ tag (.obj [(kVr, .str (vrName vr))])
+      = .ok (some (if vr = .SQ then .seq tag vr [] else .prim tag vr .empty)) := by
+  by_cases hq : vr = VR.SQ <;>
+    simp [elemOfJ, scanFields, finish, asStr, parseVR_vrName, kVr_beq, hq]
+
+theorem elemOfJ_value (tag : Nat) (vr : VR) (v : J) (h : vr ≠ .SQ) :
+    elemOfJ tag (.obj [(kVr, .str (vrName vr)), (kValue, v)])
+      = (convertPrim vr v).map fun p => some (.prim tag vr p) := by
+  simp only [elemOfJ, scanFields, kVr_beq, kValue_beq, kVr_ne, asStr, parseVR_vrName,
+    Outcome.bind_ok, finish, Option.getD_some]
+  cases hc : convertPrim vr v <;> simp [h, hc]
+
+theorem elemOfJ_sq (tag : Nat) (v : J) :
+    elemOfJ tag (.obj [(kVr, .str (vrName .SQ)), (kValue, v)])
+      = (seqItemsOf v).map fun items => some (.seq tag .SQ items) := by
+  simp only [elemOfJ, scanFields, kVr_beq, kValue_beq, kVr_ne, asStr, parseVR_vrName,
+    Outcome.bind_ok, finish, Option.getD_some]
+  cases hc : seqItemsOf v <;> simp [hc]
+
+theorem elemOfJ_inline (tag : Nat) (vr : VR) (s d : Bytes) (h : b64dec s = some d) :
+    elemOfJ tag (.obj [(kVr, .str (vrName vr)), (kInline, .str s)])
+      = .ok (some (.prim tag vr (.u8 d))) := by
+  simp [elemOfJ, scanFields, kVr_beq, kInline_beq, kVr_ne, asStr, parseVR_vrName, finish, h]
+
+/-! ### inverse of each item conversion -/
+
+theorem mapM_map_ok {α β γ : Type} (f : β → Outcome γ) (g : α → β) (h : α → γ) :
+    ∀ (l : List α), (∀ a ∈ l, f (g a) = .ok (h a)) → mapM f (l.map g) = .ok (l.map h)
+  | [], _ => rfl
+  | a :: r, hh => by
+    simp only [List.map_cons, mapM, hh a (by simp), Outcome.bind_ok,
+      mapM_map_ok f g h r (fun x hx => hh x (by simp [hx])), Outcome.map_ok]
+
+theorem digitsVal_append (l : Bytes) (d : Nat) : digitsVal (l ++ [d]) = digitsVal l * 10 + (d - 48) := by
+  simp [digitsVal, List.foldl_append]
+
+theorem digitsVal_toDecAux : ∀ (f n : Nat), n < f → digitsVal (toDecAux f n) = n
+  | 0, n, h => by omega
+  | f + 1, n, h => by
+    unfold toDecAux
+    split
+    · simp [digitsVal]
+    · rw [digitsVal_append, digitsVal_toDecAux f (n / 10) (by omega)]
+      omega
+
+theorem digitsVal_toDec (n : Nat) : digitsVal (toDec n) = n := digitsVal_toDecAux _ _ (by omega)
+
+theorem toDec_head (n : Nat) : ∃ d r, toDec n = d :: r ∧ isDig d = true := by
+  have h1 := toDec_digits n
+  have h2 := toDec_ne_nil n
+  cases h : toDec n with
+  | nil => exact absurd h h2
+  | cons d r =>
+    rw [h] at h1
+    simp only [List.all_cons, Bool.and_eq_true] at h1
+    exact ⟨d, r, rfl, h1.1⟩
+
+theorem stripPlus_digit {d : Nat} (r : Bytes) (h : isDig d = true) : stripPlus (d :: r) = d :: r := by
+  unfold stripPlus
+  split
+  · rename_i heq; simp at heq; rw [heq.1] at h; simp [isDig] at h
+  · rfl
+
+theorem splitSign_digit {d : Nat} (r : Bytes) (h : isDig d = true) :
+    splitSign (d :: r) = (false, d :: r) := by
+  unfold splitSign
+  split
+  · rename_i heq; simp at heq; rw [heq.1] at h; simp [isDig] at h
+  · rename_i heq; simp at heq; rw [heq.1] at h; simp [isDig] at h
+  · rfl
+
+theorem parseUnsigned_toDec {hi n : Nat} (h : n ≤ hi) : parseUnsigned hi (toDec n) = some n := by
+  obtain ⟨d, r, hd, hdig⟩ := toDec_head n
+  have hall := toDec_digits n
+  have hv := digitsVal_toDec n
+  unfold parseUnsigned
+  rw [hd] at hall hv ⊢
+  simp only [stripPlus_digit r hdig]
+  simp [hall, hv, h]
+
+theorem parseSigned_intDec {lo hi i : Int} (h1 : lo ≤ i) (h2 : i ≤ hi) :
+    parseSigned lo hi (intDec i) = some i := by
+  unfold intDec
+  split
+  · -- negative
+    rename_i hneg
+    have hall := toDec_digits i.natAbs
+    have hv := digitsVal_toDec i.natAbs
+    have hne := toDec_ne_nil i.natAbs
+    have hval : -(Int.ofNat i.natAbs) = i := by simp only [Int.ofNat_eq_natCast]; omega
+    simp only [parseSigned, splitSign]
+    simp [hall, hv, hne]
+    omega
+  · rename_i hpos
+    obtain ⟨d, r, hd, hdig⟩ := toDec_head i.toNat
+    have hall := toDec_digits i.toNat
+    have hv := digitsVal_toDec i.toNat
+    have hval : Int.ofNat i.toNat = i := by simp only [Int.ofNat_eq_natCast]; omega
+    unfold parseSigned
+    rw [hd] at hall hv ⊢
+    simp only [splitSign_digit r hdig]
+    simp [hall, hv]
+    omega
+
+theorem intItem_intNum {lo hi i : Int} (h1 : lo ≤ i) (h2 : i ≤ hi) :
+    intItem lo hi (intNum i) = .ok i := by
+  unfold intNum
+  split
+  · have e : -(↑i.natAbs : Int) = i := by omega
+    simp [intItem, e, h1]
+  · have e : max i 0 = i := by omega
+    simp [intItem, e, h2]
+
+/-! ### floats -/
+
+/-- the `NumberOrText` that `floatItem` is read as -/
+def floatNT (F : Fmt) (w : Nat → Nat) (x : Nat) : NT :=
+  if isFinite F x then .num (.flt (w x))
+  else if isNaN F x then .text sNaN
+  else if sign F x then .text sNegInf else .text sInf
+
+theorem numOrText_floatItem (F : Fmt) (w : Nat → Nat) (x : Nat) :
+    numOrText acceptFloat (floatItem F w x) = .ok (floatNT F w x) := by
+  unfold floatItem floatNT
+  by_cases h1 : isFinite F x = true
+  · simp [h1, numOrText, acceptFloat]
+  · by_cases h2 : isNaN F x = true
+    · simp [h1, h2, numOrText]
+    · have hinf : isInf F x = true := by
+        simp [isFinite, isNaN, isInf] at *
+        simp_all
+      by_cases h3 : sign F x = true <;> simp [h1, h2, h3, hinf, numOrText]
+
+theorem parse_specials :
+    parse b32 sNaN = some b32.nanBits ∧ parse b32 sInf = some b32.infBits ∧
+    parse b32 sNegInf = some (b32.infBits + b32.signBit) ∧
+    parse b64 sNaN = some b64.nanBits ∧ parse b64 sInf = some b64.infBits ∧
+    parse b64 sNegInf = some (b64.infBits + b64.signBit) := by decide
+
+theorem inf_bits_b32 {x : Nat} (hx : x < 4294967296) (hi : isInf b32 x = true) :
+    x = if sign b32 x then b32.infBits + b32.signBit else b32.infBits := by
+  simp [isInf, expo, mant, sign, b32, Fmt.emax, Fmt.infBits, Fmt.signBit] at *
+  split <;> omega
+
+theorem inf_bits_b64 {x : Nat} (hx : x < 18446744073709551616) (hi : isInf b64 x = true) :
+    x = if sign b64 x then b64.infBits + b64.signBit else b64.infBits := by
+  simp [isInf, expo, mant, sign, b64, Fmt.emax, Fmt.infBits, Fmt.signBit] at *
+  split <;> omega
+
+/-- hypothesis of the round trip: narrowing a widened finite `f32` gives it back -/
+def F32WidenNarrow : Prop :=
+  ∀ x, x < 4294967296 → isFinite b32 x = true → castFF b64 b32 (castFF b32 b64 x) = x
+
+theorem not_finite_cases (F : Fmt) (x : Nat) (h1 : isFinite F x = false) (h2 : isNaN F x = false) :
+    isInf F x = true := by
+  simp [isFinite, isNaN, isInf] at *
+  simp_all
+
+theorem ntToFloat_floatNT_b32 (hF : F32WidenNarrow) {x : Nat} (hx : x < 4294967296) :
+    ntToFloat b32 (floatNT b32 (castFF b32 b64) x) = .ok (canonNaN b32 x) := by
+  unfold floatNT canonNaN
+  by_cases h1 : isFinite b32 x = true
+  · have hn : isNaN b32 x = false := by
+      simp [isFinite, isNaN] at *; simp_all
+    have hb : (b32 == b64) = false := by decide
+    simp [h1, hn, ntToFloat, numToFloat, hb, hF x hx h1]
+  · by_cases h2 : isNaN b32 x = true
+    · simp [h1, h2, ntToFloat, parse_specials.1, ofOption]
+    · have hinf := not_finite_cases b32 x (by simpa using h1) (by simpa using h2)
+      have hb := inf_bits_b32 hx hinf
+      by_cases h3 : sign b32 x = true
+      · simp [h1, h2, h3, ntToFloat, parse_specials.2.2.1, ofOption]
+        simp [h3] at hb; exact hb.symm
+      · simp [h1, h2, h3, ntToFloat, parse_specials.2.1, ofOption]
+        simp [h3] at hb; exact hb.symm
+
+theorem ntToFloat_floatNT_b64 {x : Nat} (hx : x < 18446744073709551616) :
+    ntToFloat b64 (floatNT b64 id x) = .ok (canonNaN b64 x) := by
+  unfold floatNT canonNaN
+  by_cases h1 : isFinite b64 x = true
+  · have hn : isNaN b64 x = false := by
+      simp [isFinite, isNaN] at *; simp_all
+    simp [h1, hn, ntToFloat, numToFloat]
+  · by_cases h2 : isNaN b64 x = true
+    · simp [h1, h2, ntToFloat, parse_specials.2.2.2.1, ofOption]
+    · have hinf := not_finite_cases b64 x (by simpa using h1) (by simpa using h2)
+      have hb := inf_bits_b64 hx hinf
+      by_cases h3 : sign b64 x = true
+      · simp [h1, h2, h3, ntToFloat, parse_specials.2.2.2.2.2, ofOption]
+        simp [h3] at hb; exact hb.symm
+      · simp [h1, h2, h3, ntToFloat, parse_specials.2.2.2.2.1, ofOption]
+        simp [h3] at hb; exact hb.symm
+
+/-- DS written from binary floats: the numeric string is `Display` of the value -/
+theorem ntToString_floatNT_b64 (x : Nat) :
+    ntToString (floatNT b64 id x) = display b64 x := by
+  unfold floatNT
+  by_cases h1 : isFinite b64 x = true
+  · simp [h1, ntToString, numToFloat]
+  · by_cases h2 : isNaN b64 x = true
+    · simp [h1, h2, ntToString, display, sNaN]
+    · have hinf := not_finite_cases b64 x (by simpa using h1) (by simpa using h2)
+      by_cases h3 : sign b64 x = true <;>
+        simp [h1, h2, h3, hinf, ntToString, display, sNegInf, sInf]
+
+/-! ### `"Value"` arrays back to values, per deserialiser class -/
+
+theorem conv_text (vr : VR) (hc : deClass vr = .text) (l : List Bytes) :
+    convertPrim vr (.arr (l.map .str)) = .ok (.strs l) := by
+  simp only [convertPrim, hc, arrOf, Outcome.bind_ok]
+  rw [mapM_map_ok textItem J.str id l (fun a _ => rfl)]
+  simp
+
+theorem conv_at (vr : VR) (hc : deClass vr = .at) (l : List Nat) (hl : allLt 4294967296 l = true) :
+    convertPrim vr (.arr (l.map fun t => .str (tagKey t))) = .ok (.tags l) := by
+  simp only [allLt, List.all_eq_true, decide_eq_true_eq] at hl
+  simp only [convertPrim, hc, arrOf, Outcome.bind_ok]
+  rw [mapM_map_ok atItem (fun t => J.str (tagKey t)) id l
+    (fun a ha => by simp [atItem, parseTag_tagKey (hl a ha)])]
+  simp
+
+theorem personItem_alpha (s : Bytes) : personItem (.obj [(kAlpha, .str s)]) = .ok s := by
+  have h : (kAlpha == kAlpha) = true := by decide
+  simp [personItem, personFields, h, asStr, pnDisplay]
+
+theorem conv_pn (l : List Bytes) :
+    convertPrim .PN (.arr (l.map fun s => .obj [(kAlpha, .str s)])) = .ok (.strs l) := by
+  simp only [convertPrim, deClass, arrOf, Outcome.bind_ok]
+  rw [mapM_map_ok personItem (fun s => J.obj [(kAlpha, .str s)]) id l
+    (fun a _ => personItem_alpha a)]
+  simp
+
+theorem conv_int (vr : VR) (lo hi : Int) (l : List Int) (h : allIn lo hi l = true) :
+    mapM (intItem lo hi) (l.map intNum) = .ok l := by
+  simp only [allIn, List.all_eq_true, Bool.and_eq_true, decide_eq_true_eq] at h
+  rw [mapM_map_ok (intItem lo hi) intNum id l
+    (fun a ha => intItem_intNum (h a ha).1 (h a ha).2)]
+  simp
+
+theorem conv_nat (hi : Nat) (l : List Nat) (h : allLt (hi + 1) l = true) :
+    mapM (natItem hi) (l.map fun n => .num (.pos n)) = .ok l := by
+  simp only [allLt, List.all_eq_true, decide_eq_true_eq] at h
+  rw [mapM_map_ok (natItem hi) (fun n => J.num (.pos n)) id l
+    (fun a ha => by have := h a ha; simp [natItem]; omega)]
+  simp
+
+def numOfInt (i : Int) : Num := if i < 0 then .neg i.natAbs else .pos i.toNat
+
+theorem intNum_eq (i : Int) : intNum i = .num (numOfInt i) := by
+  unfold intNum numOfInt; split <;> rfl
+
+theorem numToFloat_numOfInt (i : Int) : numToFloat b64 (numOfInt i) = castInt b64 i := by
+  unfold numOfInt
+  split
+  · rename_i h
+    have e : -(↑i.natAbs : Int) = i := by omega
+    simp [numToFloat, e]
+  · rename_i h
+    simp [numToFloat, castInt, h]
+
+theorem conv_u32 (vr : VR) (hc : deClass vr = .u32) (l : List Nat) (h : allLt 4294967296 l = true) :
+    convertPrim vr (.arr (l.map fun n => .num (.pos n))) = .ok (.u32 l) := by
+  simp only [allLt, List.all_eq_true, decide_eq_true_eq] at h
+  simp only [convertPrim, hc, arrOf, Outcome.bind_ok]
+  rw [mapM_map_ok (numOrText (acceptU 4294967295)) (fun n => J.num (.pos n)) (fun n => NT.num (.pos n)) l
+    (fun a ha => by have := h a ha; simp [numOrText, acceptU]; omega)]
+  simp only [Outcome.bind_ok]
+  rw [mapM_map_ok (ntToU 4294967295) (fun n => NT.num (.pos n)) id l (fun a _ => rfl)]
+  simp
+
+theorem conv_u64 (vr : VR) (hc : deClass vr = .u64) (l : List Nat)
+    (h : allLt 18446744073709551616 l = true) :
+    convertPrim vr (.arr (l.map fun (n : Nat) =>
+      if n ≤ 2147483647 then .num (.pos n) else .str (toDec n))) = .ok (.u64 l) := by
+  simp only [allLt, List.all_eq_true, decide_eq_true_eq] at h
+  simp only [convertPrim, hc, arrOf, Outcome.bind_ok]
+  rw [mapM_map_ok (numOrText (acceptU 18446744073709551615))
+    (fun (n : Nat) => if n ≤ 2147483647 then J.num (.pos n) else J.str (toDec n))
+    (fun (n : Nat) => if n ≤ 2147483647 then NT.num (.pos n) else NT.text (toDec n)) l
+    (fun a ha => by
+      have := h a ha
+      by_cases hc : a ≤ 2147483647
+      · simp [hc, numOrText, acceptU]; omega
+      · simp [hc, numOrText])]
+  simp only [Outcome.bind_ok]
+  rw [mapM_map_ok (ntToU 18446744073709551615)
+    (fun (n : Nat) => if n ≤ 2147483647 then NT.num (.pos n) else NT.text (toDec n)) id l
+    (fun a ha => by
+      have := h a ha
+      by_cases hc : a ≤ 2147483647
+      · simp [hc, ntToU]
+      · simp [hc, ntToU, parseUnsigned_toDec (show a ≤ 18446744073709551615 by omega), ofOption])]
+  simp
+
+theorem conv_i64 (l : List Int)
+    (h : allIn (-9223372036854775808) 9223372036854775807 l = true) :
+    convertPrim .SV (.arr (l.map fun i => if fitsI32 i then intNum i else .str (intDec i)))
+      = .ok (.i64 l) := by
+  simp only [allIn, List.all_eq_true, Bool.and_eq_true, decide_eq_true_eq] at h
+  simp only [convertPrim, deClass, arrOf, Outcome.bind_ok]
+  rw [mapM_map_ok (numOrText acceptI64)
+    (fun i => if fitsI32 i then intNum i else J.str (intDec i))
+    (fun i => if fitsI32 i then NT.num (numOfInt i) else NT.text (intDec i)) l
+    (fun a ha => by
+      by_cases hc : fitsI32 a = true
+      · simp only [hc, if_true, intNum_eq, numOrText]
+        have : acceptI64 (numOfInt a) = true := by
+          simp only [fitsI32, Bool.and_eq_true, decide_eq_true_eq] at hc
+          unfold numOfInt
+          split <;> simp [acceptI64] <;> omega
+        simp [this]
+      · simp [hc, numOrText])]
+  simp only [Outcome.bind_ok]
+  rw [mapM_map_ok ntToI64
+    (fun i => if fitsI32 i then NT.num (numOfInt i) else NT.text (intDec i)) id l
+    (fun a ha => by
+      have hr := h a ha
+      by_cases hc : fitsI32 a = true
+      · simp only [hc, if_true, id]
+        unfold numOfInt
+        split
+        · simp [ntToI64]; omega
+        · simp [ntToI64]; omega
+      · simp [hc, ntToI64, parseSigned_intDec hr.1 hr.2, ofOption])]
+  simp
+
+theorem conv_f32 (hF : F32WidenNarrow) (vr : VR) (hc : deClass vr = .f32) (l : List Nat)
+    (h : allLt 4294967296 l = true) :
+    convertPrim vr (.arr (l.map (floatItem b32 (castFF b32 b64)))) = .ok (.f32 (l.map (canonNaN b32))) := by
+  simp only [allLt, List.all_eq_true, decide_eq_true_eq] at h
+  simp only [convertPrim, hc, arrOf, Outcome.bind_ok]
+  rw [mapM_map_ok (numOrText acceptFloat) (floatItem b32 (castFF b32 b64)) (floatNT b32 (castFF b32 b64)) l
+    (fun a _ => numOrText_floatItem _ _ a)]
+  simp only [Outcome.bind_ok]
+  rw [mapM_map_ok (ntToFloat b32) (floatNT b32 (castFF b32 b64)) (canonNaN b32) l
+    (fun a ha => ntToFloat_floatNT_b32 hF (h a ha))]
+  simp
+
+theorem conv_f64 (vr : VR) (hc : deClass vr = .f64) (l : List Nat)
+    (h : allLt 18446744073709551616 l = true) :
+    convertPrim vr (.arr (l.map (floatItem b64 id))) = .ok (.f64 (l.map (canonNaN b64))) := by
+  simp only [allLt, List.all_eq_true, decide_eq_true_eq] at h
+  simp only [convertPrim, hc, arrOf, Outcome.bind_ok]
+  rw [mapM_map_ok (numOrText acceptFloat) (floatItem b64 id) (floatNT b64 id) l
+    (fun a _ => numOrText_floatItem _ _ a)]
+  simp only [Outcome.bind_ok]
+  rw [mapM_map_ok (ntToFloat b64) (floatNT b64 id) (canonNaN b64) l
+    (fun a ha => ntToFloat_floatNT_b64 (h a ha))]
+  simp
+
+theorem conv_numstr_f64 (vr : VR) (hc : deClass vr = .numstr) (l : List Nat) :
+    convertPrim vr (.arr (l.map (floatItem b64 id))) = .ok (.strs (l.map (display b64))) := by
+  simp only [convertPrim, hc, arrOf, Outcome.bind_ok]
+  rw [mapM_map_ok (numOrText acceptFloat) (floatItem b64 id) (floatNT b64 id) l
+    (fun a _ => numOrText_floatItem _ _ a)]
+  simp [ntToString_floatNT_b64, Function.comp_def]
+
+theorem conv_numstr_i32 (vr : VR) (hc : deClass vr = .numstr) (l : List Int) :
+    convertPrim vr (.arr (l.map intNum))
+      = .ok (.strs (l.map fun i => display b64 (castInt b64 i))) := by
+  simp only [convertPrim, hc, arrOf, Outcome.bind_ok]
+  rw [mapM_map_ok (numOrText acceptFloat) intNum (fun i => NT.num (numOfInt i)) l
+    (fun a _ => by simp [intNum_eq, numOrText, acceptFloat])]
+  simp [ntToString, numToFloat_numOfInt, Function.comp_def]
+
+theorem conv_numstr_strs (vr : VR) (hc : deClass vr = .numstr) (l : List Bytes) :
+    convertPrim vr (.arr (l.map .str)) = .ok (.strs l) := by
+  simp only [convertPrim, hc, arrOf, Outcome.bind_ok]
+  rw [mapM_map_ok (numOrText acceptFloat) J.str NT.text l (fun a _ => rfl)]
+  simp [ntToString, Function.comp_def]
+
+/-! ### one primitive element there and back -/
+
+theorem normPrim_of_nonEmpty (vr : VR) (p : Prim) (h : p.nonEmpty = true) :
+    normPrim vr p = normPrimNE vr p := by
+  simp [normPrim, h]
+
+theorem rt_value (tag : Nat) (vr : VR) (p q : Prim) (v : J) (hsq : vr ≠ .SQ)
+    (hne : p.nonEmpty = true) (hc : convertPrim vr v = .ok q) (hn : normPrim vr p = q) :
+    elemOfJ tag (.obj [(kVr, .str (vrName vr)), (kValue, v)])
+      = .ok (some (normElem (.prim tag vr p))) := by
+  have hb : (vr == VR.SQ) = false := by simpa using hsq
+  rw [elemOfJ_value _ _ _ hsq, hc]
+  simp [normElem, hb, hn]
+
+theorem rt_binary (tag : Nat) (vr : VR) (p : Prim) (hcl : serClass vr = .binary)
+    (hne : p.nonEmpty = true) (hr : p.inRange = true)
+    (hk : p.binKind = true) :
+    elemOfJ tag (.obj [(kVr, .str (vrName vr)), (kInline, inlineBinary p)])
+      = .ok (some (normElem (.prim tag vr p))) := by
+  have hsq : (vr == VR.SQ) = false := by cases vr <;> simp [serClass] at hcl <;> rfl
+  have hb := toBytes_binary p hr hk
+  rw [inlineBinary, elemOfJ_inline _ _ _ _ (b64dec_enc _ hb.1)]
+  simp [normElem, hsq, normPrim_of_nonEmpty vr p hne, normPrimNE, hcl]
+
+/-- every well-typed primitive element comes back as its normal form -/
+theorem prim_rt (hF : F32WidenNarrow) (tag : Nat) (vr : VR) (p : Prim)
+    (hk : kindOk vr p = true) (hr : p.inRange = true) :
+    ∃ ms, primMembers vr p = .ok ms ∧
+      elemOfJ tag (.obj ((kVr, .str (vrName vr)) :: ms))
+        = .ok (some (normElem (.prim tag vr p))) := by
+  cases hne : p.nonEmpty with
+  | false =>
+    refine ⟨[], primMembers_of_empty vr p hne, ?_⟩
+    rw [elemOfJ_empty]
+    by_cases hq : vr = .SQ <;> simp [normElem, normPrim, hne, hq]
+  | true =>
+  have hN := normPrim_of_nonEmpty vr p hne
+  cases p with
+  | empty => simp [Prim.nonEmpty] at hne
+  | strs l =>
+    cases vr <;> (first
+      | (exfalso; simp [kindOk] at hk; done)
+      | exact ⟨_, by rw [primMembers_of_nonEmpty _ _ hne]; rfl,
+          rt_value tag _ _ _ _ (by decide) hne (conv_text _ rfl _) (by rw [hN]; rfl)⟩
+      | exact ⟨_, by rw [primMembers_of_nonEmpty _ _ hne]; rfl,
+          rt_value tag _ _ _ _ (by decide) hne (conv_pn _) (by rw [hN]; rfl)⟩
+      | exact ⟨_, by rw [primMembers_of_nonEmpty _ _ hne]; rfl,
+          rt_value tag _ _ _ _ (by decide) hne (conv_numstr_strs _ rfl _) (by rw [hN]; rfl)⟩)
+  | str s =>
+    cases vr <;> (first
+      | (exfalso; simp [kindOk] at hk; done)
+      | exact ⟨_, by rw [primMembers_of_nonEmpty _ _ hne]; rfl,
+          rt_value tag _ _ _ _ (by decide) hne (conv_text _ rfl _) (by rw [hN]; rfl)⟩
+      | exact ⟨_, by rw [primMembers_of_nonEmpty _ _ hne]; rfl,
+          rt_value tag _ _ _ _ (by decide) hne (conv_pn _) (by rw [hN]; rfl)⟩
+      | exact ⟨_, by rw [primMembers_of_nonEmpty _ _ hne]; rfl,
+          rt_value tag _ _ _ _ (by decide) hne (conv_numstr_strs _ rfl [s]) (by rw [hN]; rfl)⟩)
+  | tags l =>
+    cases vr <;> (first
+      | (exfalso; simp [kindOk] at hk; done)
+      | exact ⟨_, by rw [primMembers_of_nonEmpty _ _ hne]; rfl,
+          rt_value tag _ _ _ _ (by decide) hne
+            (conv_at _ rfl l (by simpa [Prim.inRange] using hr)) (by rw [hN]; rfl)⟩)
+  | u8 l =>
+    cases vr <;> (first
+      | (exfalso; simp [kindOk] at hk; done)
+      | exact ⟨_, by rw [primMembers_of_nonEmpty _ _ hne]; rfl, rt_binary tag _ _ rfl hne hr rfl⟩)
+  | i16 l =>
+    cases vr <;> (first
+      | (exfalso; simp [kindOk] at hk; done)
+      | (refine ⟨_, by rw [primMembers_of_nonEmpty _ _ hne]; rfl,
+          rt_value tag _ _ (.i16 l) _ (by decide) hne ?_ (by rw [hN]; rfl)⟩
+         simp only [convertPrim, deClass, arrOf, Outcome.bind_ok]
+         rw [conv_int .SS _ _ l (by simpa [Prim.inRange] using hr)]; rfl))
+  | u16 l =>
+    cases vr <;> (first
+      | (exfalso; simp [kindOk] at hk; done)
+      | exact ⟨_, by rw [primMembers_of_nonEmpty _ _ hne]; rfl, rt_binary tag _ _ rfl hne hr rfl⟩
+      | (refine ⟨_, by rw [primMembers_of_nonEmpty _ _ hne]; rfl,
+          rt_value tag _ _ (.u16 l) _ (by decide) hne ?_ (by rw [hN]; rfl)⟩
+         simp only [convertPrim, deClass, arrOf, Outcome.bind_ok]
+         rw [conv_nat 65535 l (by simpa [Prim.inRange] using hr)]; rfl))
+  | i32 l =>
+    cases vr <;> (first
+      | (exfalso; simp [kindOk] at hk; done)
+      | (refine ⟨_, by rw [primMembers_of_nonEmpty _ _ hne]; rfl,
+          rt_value tag _ _ (.i32 l) _ (by decide) hne ?_ (by rw [hN]; rfl)⟩
+         simp only [convertPrim, deClass, arrOf, Outcome.bind_ok]
+         rw [conv_int .SL _ _ l (by simpa [Prim.inRange] using hr)]; rfl)
+      | exact ⟨_, by rw [primMembers_of_nonEmpty _ _ hne]; rfl,
+          rt_value tag _ _ _ _ (by decide) hne (conv_numstr_i32 _ rfl l) (by rw [hN]; rfl)⟩)
+  | u32 l =>
+    cases vr <;> (first
+      | (exfalso; simp [kindOk] at hk; done)
+      | exact ⟨_, by rw [primMembers_of_nonEmpty _ _ hne]; rfl, rt_binary tag _ _ rfl hne hr rfl⟩
+      | exact ⟨_, by rw [primMembers_of_nonEmpty _ _ hne]; rfl,
+          rt_value tag _ _ _ _ (by decide) hne
+            (conv_u32 _ rfl l (by simpa [Prim.inRange] using hr)) (by rw [hN]; rfl)⟩)
+  | i64 l =>
+    cases vr <;> (first
+      | (exfalso; simp [kindOk] at hk; done)
+      | exact ⟨_, by rw [primMembers_of_nonEmpty _ _ hne]; rfl,
+          rt_value tag _ _ _ _ (by decide) hne
+            (conv_i64 l (by simpa [Prim.inRange] using hr)) (by rw [hN]; rfl)⟩)
+  | u64 l =>
+    cases vr <;> (first
+      | (exfalso; simp [kindOk] at hk; done)
+      | exact ⟨_, by rw [primMembers_of_nonEmpty _ _ hne]; rfl, rt_binary tag _ _ rfl hne hr rfl⟩
+      | exact ⟨_, by rw [primMembers_of_nonEmpty _ _ hne]; rfl,
+          rt_value tag _ _ _ _ (by decide) hne
+            (conv_u64 _ rfl l (by simpa [Prim.inRange] using hr)) (by rw [hN]; rfl)⟩)
+  | f32 l =>
+    cases vr <;> (first
+      | (exfalso; simp [kindOk] at hk; done)
+      | exact ⟨_, by rw [primMembers_of_nonEmpty _ _ hne]; rfl, rt_binary tag _ _ rfl hne hr rfl⟩
+      | exact ⟨_, by rw [primMembers_of_nonEmpty _ _ hne]; rfl,
+          rt_value tag _ _ _ _ (by decide) hne
+            (conv_f32 hF _ rfl l (by simpa [Prim.inRange] using hr)) (by rw [hN]; rfl)⟩)
+  | f64 l =>
+    cases vr <;> (first
+      | (exfalso; simp [kindOk] at hk; done)
+      | exact ⟨_, by rw [primMembers_of_nonEmpty _ _ hne]; rfl, rt_binary tag _ _ rfl hne hr rfl⟩
+      | exact ⟨_, by rw [primMembers_of_nonEmpty _ _ hne]; rfl,
+          rt_value tag _ _ _ _ (by decide) hne
+            (conv_f64 _ rfl l (by simpa [Prim.inRange] using hr)) (by rw [hN]; rfl)⟩
+      | exact ⟨_, by rw [primMembers_of_nonEmpty _ _ hne]; rfl,
+          rt_value tag _ _ _ _ (by decide) hne (conv_numstr_f64 _ rfl l) (by rw [hN]; rfl)⟩)
+  | date l =>
+    cases vr <;> (first
+      | (exfalso; simp [kindOk] at hk; done)
+      | exact ⟨_, by rw [primMembers_of_nonEmpty _ _ hne]; rfl,
+          rt_value tag _ _ _ _ (by decide) hne (conv_text _ rfl _) (by rw [hN]; rfl)⟩)
+  | dateTime l =>
+    cases vr <;> (first
+      | (exfalso; simp [kindOk] at hk; done)
+      | exact ⟨_, by rw [primMembers_of_nonEmpty _ _ hne]; rfl,
+          rt_value tag _ _ _ _ (by decide) hne (conv_text _ rfl _) (by rw [hN]; rfl)⟩)
+  | time l =>
+    cases vr <;> (first
+      | (exfalso; simp [kindOk] at hk; done)
+      | exact ⟨_, by rw [primMembers_of_nonEmpty _ _ hne]; rfl,
+          rt_value tag _ _ _ _ (by decide) hne (conv_text _ rfl _) (by rw [hN]; rfl)⟩)
+
+/-! ### `put` rebuilds a tag-sorted element list -/
+
+theorem tagsOf_append : ∀ (a b : List Elem), tagsOf (a ++ b) = tagsOf a ++ tagsOf b
+  | [], b => by simp [tagsOf]
+  | x :: a, b => by simp [tagsOf, tagsOf_append a b]
+
+theorem sorted_head_lt : ∀ (a : Nat) (l : List Nat), sortedTags (a :: l) = true → ∀ b ∈ l, a < b
+  | a, [], _, b, hb => by simp at hb
+  | a, c :: r, h, b, hb => by
+    simp only [sortedTags, Bool.and_eq_true, decide_eq_true_eq] at h
+    simp only [List.mem_cons] at hb
+    cases hb with
+    | inl e => rw [e]; exact h.1
+    | inr e => exact Nat.lt_trans h.1 (sorted_head_lt c r h.2 b e)
+
+theorem sorted_tail : ∀ (a : Nat) (l : List Nat), sortedTags (a :: l) = true → sortedTags l = true
+  | a, [], _ => rfl
+  | a, c :: r, h => by
+    simp only [sortedTags, Bool.and_eq_true] at h
+    exact h.2
+
+theorem put_append (e : Elem) : ∀ (acc : List Elem), (∀ a ∈ tagsOf acc, a < e.tag) →
+    put e acc = acc ++ [e]
+  | [], _ => rfl
+  | x :: xs, h => by
+    have hx : x.tag < e.tag := h x.tag (by simp [tagsOf])
+    have h1 : ¬ e.tag < x.tag := by omega
+    have h2 : (e.tag == x.tag) = false := by simp; omega
+    simp only [put, h1, if_false, h2, List.cons_append]
+    rw [put_append e xs (fun a ha => h a (by simp [tagsOf, ha]))]
+    simp
+
+theorem foldl_put : ∀ (es acc : List Elem),
+    (∀ a ∈ tagsOf acc, ∀ b ∈ tagsOf es, a < b) → sortedTags (tagsOf es) = true →
+    es.foldl (fun acc e => put e acc) acc = acc ++ es
+  | [], acc, _, _ => by simp
+  | e :: es, acc, h, hs => by
+    simp only [List.foldl_cons]
+    rw [put_append e acc (fun a ha => h a ha e.tag (by simp [tagsOf]))]
+    have hs' : sortedTags (e.tag :: tagsOf es) = true := by simpa [tagsOf] using hs
+    rw [foldl_put es (acc ++ [e]) ?_ (sorted_tail _ _ hs')]
+    · simp
+    · intro a ha b hb
+      rw [tagsOf_append] at ha
+      simp only [List.mem_append] at ha
+      cases ha with
+      | inl h1 => exact h a h1 b (by simp [tagsOf, hb])
+      | inr h1 =>
+        simp [tagsOf] at h1
+        rw [h1]
+        exact sorted_head_lt _ _ hs' b hb
+
+theorem putAll_sorted (es : List Elem) (h : sortedTags (tagsOf es) = true) : putAll es = es := by
+  unfold putAll
+  rw [foldl_put es [] (fun a ha => by simp [tagsOf] at ha) h]
+  simp
+
+theorem normElem_tag : ∀ (e : Elem), (normElem e).tag = e.tag
+  | .prim t vr p => by
+    simp only [normElem]
+    split <;> rfl
+  | .seq t vr items => rfl
+  | .pix t vr => rfl
+
+theorem tagsOf_normDs : ∀ (es : List Elem), tagsOf (normDs es) = tagsOf es
+  | [] => rfl
+  | e :: es => by simp [normDs, tagsOf, normElem_tag, tagsOf_normDs es]
+
+/-! ### whole data sets, any nesting depth -/
+
+mutual
+theorem elem_rt (hF : F32WidenNarrow) : ∀ (e : Elem), e.wf = true → e.typed = true →
+    e.noPix = true → ∃ j, elemToJson e = .ok j ∧ elemOfJ e.tag j = .ok (some (normElem e))
+  | .prim t vr p, _, ht, _ => by
+    simp only [Elem.typed, Bool.and_eq_true] at ht
+    obtain ⟨ms, h1, h2⟩ := prim_rt hF t vr p ht.1 ht.2
+    exact ⟨_, by simp [elemToJson, h1], h2⟩
+  | .seq t vr [], _, ht, _ => by
+    simp only [Elem.typed, Bool.and_eq_true, beq_iff_eq] at ht
+    refine ⟨_, rfl, ?_⟩
+    simp [Elem.tag, elemOfJ_empty, ht.1, normElem, normItems]
+  | .seq t vr (d :: ds), hw, ht, hp => by
+    simp only [Elem.typed, Bool.and_eq_true, beq_iff_eq] at ht
+    simp only [Elem.wf, Bool.and_eq_true] at hw
+    simp only [Elem.noPix] at hp
+    obtain ⟨js, h1, h2⟩ := items_rt hF (d :: ds) hw.2 ht.2 hp
+    refine ⟨.obj [(kVr, .str (vrName vr)), (kValue, .arr js)], by simp [elemToJson, h1], ?_⟩
+    rw [ht.1]
+    simp only [Elem.tag]
+    rw [elemOfJ_sq]
+    simp [seqItemsOf, h2, normElem]
+  | .pix t vr, _, _, hp => by simp [Elem.noPix] at hp
+theorem items_rt (hF : F32WidenNarrow) : ∀ (items : List (List Elem)), itemsWf items = true →
+    itemsTyped items = true → itemsNoPix items = true →
+    ∃ js, itemsToJson items = .ok js ∧ itemsOf js = .ok (normItems items)
+  | [], _, _, _ => ⟨[], rfl, rfl⟩
+  | d :: ds, hw, ht, hp => by
+    simp only [itemsWf, Bool.and_eq_true] at hw
+    simp only [itemsTyped, Bool.and_eq_true] at ht
+    simp only [itemsNoPix, Bool.and_eq_true] at hp
+    obtain ⟨ms, m1, m2⟩ := members_rt hF d hw.1.1 ht.1 hp.1
+    obtain ⟨js, j1, j2⟩ := items_rt hF ds hw.2 ht.2 hp.2
+    refine ⟨.obj ms :: js, by simp [itemsToJson, m1, j1], ?_⟩
+    have hs : sortedTags (tagsOf (normDs d)) = true := by rw [tagsOf_normDs]; exact hw.1.2
+    simp [itemsOf, dsOfJ, m2, j2, putAll_sorted _ hs, normItems]
+theorem members_rt (hF : F32WidenNarrow) : ∀ (es : List Elem), elemsWf es = true →
+    elemsTyped es = true → elemsNoPix es = true →
+    ∃ ms, membersToJson es = .ok ms ∧ elemsOfMembers ms = .ok (normDs es)
+  | [], _, _, _ => ⟨[], rfl, rfl⟩
+  | e :: es, hw, ht, hp => by
+    simp only [elemsWf, Bool.and_eq_true] at hw
+    simp only [elemsTyped, Bool.and_eq_true] at ht
+    simp only [elemsNoPix, Bool.and_eq_true] at hp
+    obtain ⟨j, e1, e2⟩ := elem_rt hF e hw.1 ht.1 hp.1
+    obtain ⟨ms, m1, m2⟩ := members_rt hF es hw.2 ht.2 hp.2
+    refine ⟨(tagKey e.tag, j) :: ms, by simp [membersToJson, e1, m1], ?_⟩
+    simp [elemsOfMembers, parseTag_tagKey (Elem.wf_tag e hw.1), e2, m2, normDs]
+end
+
+/-- **C23, first sentence.** Any well-typed in-memory data set without encapsulated pixel data,
+serialised to DICOM JSON and deserialised again, yields the data set with exactly the documented
+normalisations applied (`normDs`) — for nested sequences of any depth. -/
+theorem json_rt (hF : F32WidenNarrow) (ds : DataSet) (hw : ds.wf = true)
+    (ht : elemsTyped ds = true) (hp : elemsNoPix ds = true) :
+    ∃ j, toJson ds = .ok j ∧ fromValue j = .ok (normDs ds) := by
+  simp only [DataSet.wf, Bool.and_eq_true] at hw
+  obtain ⟨ms, m1, m2⟩ := members_rt hF ds hw.1 ht hp
+  refine ⟨.obj ms, by simp [toJson, m1], ?_⟩
+  have hs : sortedTags (tagsOf (normDs ds)) = true := by rw [tagsOf_normDs]; exact hw.2
+  simp [fromValue, dsOfJ, m2, putAll_sorted _ hs]
+
+
+/-! ### what the hypotheses exclude, and examples -/
+
+/-- encapsulated pixel data is outside the round trip: it is written as an empty attribute -/
+theorem pixel_sequence_not_kept :
+    ∃ j, toJson [.pix 0x7FE00010 .OB] = .ok j ∧
+      fromValue j = .ok [.prim 0x7FE00010 .OB .empty] := ⟨_, rfl, by rfl⟩
+
+/-- the normal form of plain multi-valued text is the text without trailing padding -/
+example : normDs [.prim 0x00080060 .CS (.strs [ascii "CT ", ascii "PET"]),
+                  .prim 0x00100010 .PN (.str (ascii "Doe^John\x00"))]
+    = [.prim 0x00080060 .CS (.strs [ascii "CT", ascii "PET"]),
+       .prim 0x00100010 .PN (.strs [ascii "Doe^John\x00" |> trimEnd])] := by rfl
+
+/-- defect #5 (repaired): `Value` together with `InlineBinary` is an error, in both orders -/
+example : elemOfJ 0x00090010 (.obj [(kVr, .str [79, 66]),
+      (kValue, .arr [.num (.pos 1)]), (kInline, .str [65, 65, 61, 61])]) = .err := by rfl
+example : elemOfJ 0x00090010 (.obj [(kVr, .str [79, 66]),
+      (kInline, .str [65, 65, 61, 61]), (kValue, .arr [.num (.pos 1)])]) = .err := by rfl
+
+/-- defect #1 (repaired): an 8-byte key that is not on a char boundary at byte 4 is an error -/
+example : parseTag [97, 98, 99, 0xC3, 0xA9, 97, 98, 99] = .err := by rfl
+
+/-- non-vacuity of `json_rt`: nested sequences, non-finite float, 64-bit integer, binary value,
+zero-length vector, date -/
+example :
+    let ds : DataSet := [
+      .prim 0x00080018 .UI (.strs [ascii "1.2.3 "]),
+      .prim 0x00080020 .DA (.date [(ascii "20240229", ascii "2024-02-29")]),
+      .prim 0x00186020 .FL (.f32 [0x7FC00001, 0x3F800000]),
+      .prim 0x00280010 .US (.u16 []),
+      .seq 0x00400275 .SQ [[.prim 0x00400009 .SV (.i64 [-9007199254740993])], []],
+      .prim 0x7FE00010 .OW (.u16 [1, 65535])]
+    ds.wf = true ∧ elemsTyped ds = true ∧ elemsNoPix ds = true := by decide
+
 end Dicom.Json
